@@ -124,6 +124,9 @@ Proof.
   congruence.
 Qed.
 
+Definition is_error (st : status) : bool :=
+  match st with S200 | S201 | S204 | S207 => false | _ => true end.
+
 (* ---------- a small inversion tactic for early-return handlers ---------- *)
 Ltac brk :=
   match goal with
@@ -383,7 +386,7 @@ Proof. intros [] [] o H; try discriminate; auto. Qed.
 
 Lemma do_move_cases : forall pol s p dr dout to ow s' r,
   do_move pol s p dr dout to ow = (s', r) ->
-  s' = s \/
+  (s' = s /\ is_error (fst r) = true) \/
   exists fc o toc tc,
     resolve s p = NItem fc o /\ resolve s (parent to) = NColl toc
     /\ tag_eqb (c_tag fc) TNone = false /\ tag_eqb (c_tag fc) (c_tag toc) = true
@@ -394,11 +397,12 @@ Lemma do_move_cases : forall pol s p dr dout to ow s' r,
         end)
     /\ lookup (set_coll s (parent p) (mkColl (c_tag fc) (c_props fc) (assoc_del (c_items fc) (last_name p)))) (parent to) = Some tc
     /\ s' = set_coll (set_coll s (parent p) (mkColl (c_tag fc) (c_props fc) (assoc_del (c_items fc) (last_name p))))
-                     (parent to) (mkColl (c_tag tc) (c_props tc) (assoc_set (c_items tc) (last_name to) o)).
+                     (parent to) (mkColl (c_tag tc) (c_props tc) (assoc_set (c_items tc) (last_name to) o))
+    /\ is_error (fst r) = false.
 Proof.
   intros pol s p dr dout to ow s' r H. unfold do_move in H.
   repeat (match type of H with context [match ?x with _ => _ end] => destruct x eqn:? end;
-          try (inversion H; subst; left; reflexivity)).
+          try (inversion H; subst; left; split; reflexivity)).
   all: inversion H; subst; clear H; right.
   all: do 4 eexists; repeat split; try eassumption; try reflexivity.
   all: try (apply negb_false_iff; assumption).
@@ -424,7 +428,7 @@ Lemma do_move_inv : forall pol s p dr dout to ow, store_inv s -> store_inv (fst 
 Proof.
   intros pol s p dr dout to ow Hs.
   destruct (do_move pol s p dr dout to ow) as [s' r] eqn:E. cbn [fst].
-  apply do_move_cases in E. destruct E as [->|(fc & o & toc & tc & Hi & Htc & Htn & Hte & Hcf & Hl & ->)]; [exact Hs|].
+  apply do_move_cases in E. destruct E as [[-> _]|(fc & o & toc & tc & Hi & Htc & Htn & Hte & Hcf & Hl & -> & _)]; [exact Hs|].
   pose proof (resolve_item _ _ _ _ Hi) as (_ & Hpne & Hfl & Hfa).
   pose proof (store_inv_lookup_coll _ _ _ Hs Hfl) as Hfci.
   pose proof (resolve_coll _ _ _ Htc) as Htl.
@@ -579,12 +583,13 @@ Proof. intros p H. unfold inter. cbn. rewrite H. reflexivity. Qed.
 
 Lemma do_put_cases : forall cfg pol s p ct b im inm s' r,
   do_put cfg pol s p ct b im inm = (s', r) ->
-  s' = s
+  (s' = s /\ is_error (fst r) = true)
   \/ (exists pc tg objs,
         is_root p = false /\ resolve s (parent p) = NColl pc
         /\ ((exists c, resolve s p = NColl c) \/ c_tag pc = TNone)
         /\ validate b true tg = Some objs
-        /\ s' = set_coll (del_subtree s p) p (mkColl tg [] (items_of_objs objs)))
+        /\ s' = set_coll (del_subtree s p) p (mkColl tg [] (items_of_objs objs))
+        /\ r = (S201, PEtag (EtColl (mkColl tg [] (items_of_objs objs)))))
   \/ (exists pc o,
         resolve s (parent p) = NColl pc /\ c_tag pc <> TNone
         /\ (forall c, resolve s p <> NColl c)
@@ -593,30 +598,31 @@ Lemma do_put_cases : forall cfg pol s p ct b im inm s' r,
             | NItem _ old => o_uid old = o_uid o
             | _ => has_uid pc (o_uid o) = false
             end)
-        /\ s' = set_coll s (parent p) (mkColl (c_tag pc) (c_props pc) (assoc_set (c_items pc) (last_name p) o))).
+        /\ s' = set_coll s (parent p) (mkColl (c_tag pc) (c_props pc) (assoc_set (c_items pc) (last_name p) o))
+        /\ r = (S201, PEtag (EtItem o))).
 Proof.
   intros cfg pol s p ct b im inm s' r H. unfold do_put in H.
-  destruct (negb (check pol p lw NoItem)); [inversion H; left; reflexivity|].
+  destruct (negb (check pol p lw NoItem)); [inversion H; left; split; reflexivity|].
   assert (Hb : (match b with BBad => True | _ => False end) \/ b <> BBad) by (destruct b; [left; exact I|right; discriminate..]).
-  destruct Hb as [Hb|Hb]; [destruct b; try contradiction; inversion H; left; reflexivity|].
+  destruct Hb as [Hb|Hb]; [destruct b; try contradiction; inversion H; left; split; reflexivity|].
   set (pm := inter (pol p) [lW; lw]) in *. set (ppm := inter (pperms_of pol p) [lw]) in *.
   assert (H' : match prepare b ct pm ppm None None with
                | PRaise => (s, (S500, PNone))
                | PRes ptag1 pwwc1 pitems1 => _ end = (s', r)) by (destruct b; try contradiction; exact H).
-  clear H. destruct (prepare b ct pm ppm None None) as [|t1 w1 i1] eqn:E1; [inversion H'; left; reflexivity|].
-  destruct (resolve s (parent p)) as [pc| |] eqn:Epar; try (inversion H'; left; reflexivity).
+  clear H. destruct (prepare b ct pm ppm None None) as [|t1 w1 i1] eqn:E1; [inversion H'; left; split; reflexivity|].
+  destruct (resolve s (parent p)) as [pc| |] eqn:Epar; try (inversion H'; left; split; reflexivity).
   remember ((match resolve s p with NColl _ => true | _ => false end)
             || match c_tag pc with TNone => true | _ => false end) as wwc eqn:Ew.
-  destruct (wwc && is_root p) eqn:Eroot; [inversion H'; left; reflexivity|].
+  destruct (wwc && is_root p) eqn:Eroot; [inversion H'; left; split; reflexivity|].
   destruct wwc; cbv iota in H'.
   - (* whole collection *)
     cbn [andb] in Eroot.
-    match type of H' with (if ?c then _ else _) = _ => destruct c; [inversion H'; left; reflexivity|] end.
-    match type of H' with (if ?c then _ else _) = _ => destruct c; [inversion H'; left; reflexivity|] end.
-    match type of H' with (if ?c then _ else _) = _ => destruct c; [inversion H'; left; reflexivity|] end.
+    match type of H' with (if ?c then _ else _) = _ => destruct c; [inversion H'; left; split; reflexivity|] end.
+    match type of H' with (if ?c then _ else _) = _ => destruct c; [inversion H'; left; split; reflexivity|] end.
+    match type of H' with (if ?c then _ else _) = _ => destruct c; [inversion H'; left; split; reflexivity|] end.
     rewrite <- E1 in H'.
     destruct (put_prep b ct pm ppm t1 true (prepare b ct pm ppm None None)) as [|t2 w2 [objs|]] eqn:Epp;
-      try (inversion H'; left; reflexivity).
+      try (inversion H'; left; split; reflexivity).
     apply put_prep_whole in Epp as (tg & -> & Hval). inversion H'; subst. right. left.
     exists pc, tg, objs. repeat split; try assumption; try reflexivity.
     symmetry in Ew. apply orb_true_iff in Ew as [Ew|Ew].
@@ -624,16 +630,16 @@ Proof.
     + right. destruct (c_tag pc); try discriminate. reflexivity.
   - (* single item *)
     symmetry in Ew. apply orb_false_iff in Ew as [Ew1 Ew2].
-    match type of H' with (if ?c then _ else _) = _ => destruct c eqn:Eperm; [inversion H'; left; reflexivity|] end.
+    match type of H' with (if ?c then _ else _) = _ => destruct c eqn:Eperm; [inversion H'; left; split; reflexivity|] end.
     apply negb_false_iff in Eperm. apply inter_lw in Eperm. fold ppm in Eperm.
-    match type of H' with (if ?c then _ else _) = _ => destruct c; [inversion H'; left; reflexivity|] end.
-    match type of H' with (if ?c then _ else _) = _ => destruct c; [inversion H'; left; reflexivity|] end.
+    match type of H' with (if ?c then _ else _) = _ => destruct c; [inversion H'; left; split; reflexivity|] end.
+    match type of H' with (if ?c then _ else _) = _ => destruct c; [inversion H'; left; split; reflexivity|] end.
     rewrite <- E1 in H'. rewrite Eperm in *.
     destruct (put_prep b ct pm true (Some (c_tag pc)) false (prepare b ct pm true None None)) as [|t2 w2 [objs|]] eqn:Epp;
-      try (inversion H'; left; reflexivity).
+      try (inversion H'; left; split; reflexivity).
     apply put_prep_item in Epp.
-    destruct objs as [|o [|]]; try (inversion H'; left; reflexivity).
-    match type of H' with (if ?c then _ else _) = _ => destruct c eqn:Econf; [inversion H'; left; reflexivity|] end.
+    destruct objs as [|o [|]]; try (inversion H'; left; split; reflexivity).
+    match type of H' with (if ?c then _ else _) = _ => destruct c eqn:Econf; [inversion H'; left; split; reflexivity|] end.
     inversion H'; subst. right. right. exists pc, o. repeat split; try assumption; try reflexivity.
     + intros Ht. rewrite Ht in Ew2. discriminate.
     + intros c Hc. rewrite Hc in Ew1. discriminate.
@@ -645,7 +651,7 @@ Proof.
   intros cfg pol s p ct b im inm Hs.
   destruct (do_put cfg pol s p ct b im inm) as [s' r] eqn:E. cbn [fst].
   apply do_put_cases in E.
-  destruct E as [->|[(pc & tg & objs & Hroot & Hpar & Hwhy & Hval & ->)|(pc & o & Hpar & Htag & Hnc & Hval & Hcf & ->)]]; [exact Hs| |].
+  destruct E as [[-> _]|[(pc & tg & objs & Hroot & Hpar & Hwhy & Hval & -> & _)|(pc & o & Hpar & Htag & Hnc & Hval & Hcf & -> & _)]]; [exact Hs| |].
   - (* whole collection replaced *)
     assert (Hpne : p <> []) by (intros ->; discriminate).
     apply resolve_coll in Hpar.
@@ -701,8 +707,6 @@ Proof.
 Qed.
 
 (* ---------- error answers leave the store untouched (home creation aside) ---------- *)
-Definition is_error (st : status) : bool :=
-  match st with S200 | S201 | S204 | S207 => false | _ => true end.
 
 Ltac unchanged_or_ok := repeat (brk; cbn [fst snd]; try (left; reflexivity)); right; reflexivity.
 
